@@ -261,7 +261,7 @@ NoDifference(C, fs) == \A d \in D : Gone(C, fs, d) = {} /\ Fresh(C, fs, d) = {}
 
 (* With parallel scan threads (the default) a candidate source whose own record is replaced or re-allocated in the same
    scan on another disk may or may not be found, and may even be copied while its hashes are being invalidated
-   (scan.c:993, 672-686, 1058-1060): the outcome depends on thread timing (finding F10, C13).  The conformance runs
+   (scan.c:993, 672-686, 1058-1060): the outcome depends on thread timing (finding F11, C13).  The conformance runs
    therefore scan the disks sequentially; sources that are merely deleted stay available until all disks are
    scanned (scan.c:1668-1700). *)
 (* a file that was itself taken as a copy earlier in the same scan (on a disk scanned before) carries hashes and can
